@@ -586,6 +586,112 @@ pub fn param_case(rng: &mut Rng, out: &mut Out, maxlen: usize) {
     out.case(tagged("noop", vec![sym("param"), int(nodes)]), tagged("noop", vec![sym("param"), int(nodes)]), nodes > 3);
 }
 
+
+// ------------------------------------------------------------------ ParamExpr / ParamCond evaluation against the model (coq/Param.v)
+fn u64_sx(v: u64) -> Sx {
+    hex(&v.to_be_bytes())
+}
+fn gen_wide_ref(rng: &mut Rng) -> (u8, u8) {
+    match rng.below(6) {
+        0 => (0, 64),
+        1 => {
+            let x = rng.below(63) as u8;
+            (x, x + 1)
+        }
+        2 => (rng.range(56, 62) as u8, 64),
+        _ => {
+            let x = rng.below(60) as u8;
+            let y = (x as usize + rng.range(1, 8)).min(64) as u8;
+            (x, y)
+        }
+    }
+}
+fn gen_param_value(rng: &mut Rng, r: (u8, u8)) -> u64 {
+    let base = match rng.below(4) {
+        0 => 0u64,
+        1 => u64::MAX,
+        2 => rng.next(),
+        _ => rng.next() & 0xFFFF,
+    };
+    let len = (r.1 - r.0) as u32;
+    let mask = if len == 64 { u64::MAX } else { ((1u64 << len) - 1) << r.0 };
+    // the field itself: all ones, all zeros, one below / above, or as drawn
+    match rng.below(5) {
+        0 => base | mask,
+        1 => base & !mask,
+        2 => (base | mask) & !(1u64 << r.0),
+        3 => (base & !mask) | (1u64 << r.0),
+        _ => base,
+    }
+}
+
+pub fn param_eval_case(rng: &mut Rng, out: &mut Out) {
+    use llguidance::earley::{ParamCond, ParamExpr, ParamRef, ParamValue};
+    let r = gen_wide_ref(rng);
+    let pr = ParamRef::new(r.0, r.1);
+    let p = gen_param_value(rng, r);
+    // expressions
+    let v = match rng.below(3) { 0 => rng.next(), 1 => 1u64 << rng.below(64), _ => !(1u64 << rng.below(64)) };
+    let (e, esx) = match rng.below(8) {
+        0 => (ParamExpr::Null, tagged("null", vec![])),
+        1 => (ParamExpr::Const(ParamValue(v)), tagged("const", vec![u64_sx(v)])),
+        2 => (ParamExpr::SelfRef, tagged("self", vec![])),
+        3 | 4 => (ParamExpr::Incr(pr), tagged("incr", vec![int(r.0), int(r.1)])),
+        5 => (ParamExpr::Decr(pr), tagged("decr", vec![int(r.0), int(r.1)])),
+        6 => (ParamExpr::BitOr(ParamValue(v)), tagged("or", vec![u64_sx(v)])),
+        _ => (ParamExpr::BitAnd(ParamValue(v)), tagged("and", vec![u64_sx(v)])),
+    };
+    let got = std::panic::catch_unwind(std::panic::AssertUnwindSafe(|| e.eval(ParamValue(p)).0));
+    match got {
+        Ok(g) => out.case(tagged("pexpr", vec![esx.clone(), u64_sx(p)]), tagged("ok", vec![u64_sx(g)]), true),
+        Err(_) => {
+            out.violation(&format!("ParamExpr::eval panicked: {e} on 0x{p:x}"), format!("{esx} 0x{p:x}"));
+            out.case(tagged("pexpr", vec![esx, u64_sx(p)]), tagged("panic", vec![]), true);
+        }
+    }
+    // conditions
+    fn gen_c(rng: &mut Rng, depth: usize) -> (ParamCond, Sx) {
+        let r = gen_wide_ref(rng);
+        let pr = ParamRef::new(r.0, r.1);
+        let len = (r.1 - r.0) as u32;
+        let ones = if len == 64 { u64::MAX } else { (1u64 << len) - 1 };
+        let v = match rng.below(4) { 0 => 0, 1 => ones, 2 => rng.next() & ones, _ => (rng.next() & ones).wrapping_add(1) };
+        let k = rng.below(66) as u8;
+        let ops = ["ne", "eq", "le", "lt", "ge", "gt"];
+        let oi = rng.below(6);
+        match rng.below(if depth == 0 { 3 } else { 6 }) {
+            0 => (ParamCond::True, tagged("true", vec![])),
+            1 => {
+                let pv = ParamValue(v);
+                let c = match oi { 0 => ParamCond::NE(pr, pv), 1 => ParamCond::EQ(pr, pv), 2 => ParamCond::LE(pr, pv), 3 => ParamCond::LT(pr, pv), 4 => ParamCond::GE(pr, pv), _ => ParamCond::GT(pr, pv) };
+                (c, tagged("cmp", vec![sym(ops[oi]), int(r.0), int(r.1), hex(&v.to_be_bytes())]))
+            }
+            2 => {
+                let c = match oi { 0 => ParamCond::BitCountNE(pr, k), 1 => ParamCond::BitCountEQ(pr, k), 2 => ParamCond::BitCountLE(pr, k), 3 => ParamCond::BitCountLT(pr, k), 4 => ParamCond::BitCountGE(pr, k), _ => ParamCond::BitCountGT(pr, k) };
+                (c, tagged("bitcount", vec![sym(ops[oi]), int(r.0), int(r.1), int(k)]))
+            }
+            3 => {
+                let (a, sa) = gen_c(rng, depth - 1);
+                let (b, sb) = gen_c(rng, depth - 1);
+                (ParamCond::And(Box::new(a), Box::new(b)), tagged("and", vec![sa, sb]))
+            }
+            4 => {
+                let (a, sa) = gen_c(rng, depth - 1);
+                let (b, sb) = gen_c(rng, depth - 1);
+                (ParamCond::Or(Box::new(a), Box::new(b)), tagged("or", vec![sa, sb]))
+            }
+            _ => {
+                let (a, sa) = gen_c(rng, depth - 1);
+                (ParamCond::Not(Box::new(a)), tagged("not", vec![sa]))
+            }
+        }
+    }
+    let (c, csx) = gen_c(rng, 2);
+    let got = c.eval(ParamValue(p));
+    out.case(tagged("pcond", vec![csx, u64_sx(p)]), tagged("ok", vec![boolean(got)]), true);
+    out.count("param_eval_cases", 1);
+}
+
 pub fn run(rng: &mut Rng, out: &mut Out, tier: &str) {
     let (n, maxlen) = if tier == "thorough" { (1500, 7) } else { (250, 5) };
     for line in corpus_lines("C05") {
@@ -600,5 +706,9 @@ pub fn run(rng: &mut Rng, out: &mut Out, tier: &str) {
         }
         let mut r = rng.fork(0x0510_0000 + i as u64);
         param_case(&mut r, out, maxlen + 4);
+        for j in 0..4 {
+            let mut r = rng.fork(0x0520_0000 + (i * 4 + j) as u64);
+            param_eval_case(&mut r, out);
+        }
     }
 }
